@@ -62,6 +62,64 @@ def depositImpact (W U : Nat) (m : Market) (d : DepositParams) (includeVi : Bool
                 | none => .error .fail
                 | some imp => .ok (imp, dL.natAbs, dS.natAbs)
 
+/-- positive-impact stage of `execute_deposit`: take the (capped) impact amount out of the OPPOSITE
+swap-impact pool, mint market tokens for its value at the opposite max price, add it to the
+opposite liquidity pool, validate that pool's max amount. Returns `(minted, impact amount)`. -/
+def depositPositive (W : Nat) (m1 : Market) (isLong : Bool) (opposite : Price) (impact : Int)
+    (poolValue supply : Nat) : Market × Except MErr (Nat × Nat) :=
+  match applySwapImpactValueWithCap W m1.swapImpact (!isLong) opposite impact with
+  | none => (m1, .error .fail)
+  | some (imp', pia) =>
+    let m2 := { m1 with swapImpact := imp' }
+    match checkedMul W pia opposite.max with
+    | none => (m2, .error .fail)
+    | some usd => match usdToMarketTokenAmount W usd poolValue supply m1.cfg.divisor with
+      | none => (m2, .error .fail)
+      | some mt => match toSigned W pia with
+        | none => (m2, .error .fail)
+        | some spia => match m2.applyDelta W (!isLong) spia with
+          | none => (m2, .error .fail)
+          | some m3 => match validatePoolAmount m3 (!isLong) with
+            | .error e => (m3, .error e)
+            | .ok () => (m3, .ok (mt, pia))
+
+/-- negative-impact stage: move the (rounded-up) impact amount from the deposited amount into the
+SAME side's swap-impact pool. Returns `(remaining amount, impact amount)`. -/
+def depositNegative (W : Nat) (m1 : Market) (isLong : Bool) (price : Price) (impact : Int) (afterFees : Nat) :
+    Market × Except MErr (Nat × Nat) :=
+  match applySwapImpactValueWithCap W m1.swapImpact isLong price impact with
+  | none => (m1, .error .fail)
+  | some (imp', nia) =>
+    let m2 := { m1 with swapImpact := imp' }
+    match checkedSub afterFees nia with
+    | none => (m2, .error .fail)
+    | some a => (m2, .ok (a, nia))
+
+/-- final stage: mint for the net amount at the min price, credit net amount + pool fee to the
+liquidity pool, validate max pool amount and max pool value for deposits. -/
+def depositFinish (W : Nat) (ms : Market) (d : DepositParams) (isLong : Bool) (poolValue supply mt0 amount : Nat)
+    (fees : Fees) (pia nia : Nat) : Market × Except MErr SideResult :=
+  let price := d.prices.collateral isLong
+  match checkedMul W amount price.min with
+  | none => (ms, .error .fail)
+  | some usd => match usdToMarketTokenAmount W usd poolValue supply ms.cfg.divisor with
+    | none => (ms, .error .fail)
+    | some mt1 => match checkedAdd W mt0 mt1 with
+      | none => (ms, .error .fail)
+      | some mint => match checkedAdd W amount fees.pool with
+        | none => (ms, .error .fail)
+        | some credit => match toSigned W credit with
+          | none => (ms, .error .fail)
+          | some scredit => match ms.applyDelta W isLong scredit with
+            | none => (ms, .error .fail)
+            | some m4 => match validatePoolAmount m4 isLong with
+              | .error e => (m4, .error e)
+              | .ok () => match validatePoolValueForDeposit W m4 d.prices isLong with
+                | .error e => (m4, .error e)
+                | .ok () =>
+                  (m4, .ok { minted := mint, fees := fees, positiveImpactAmount := pia,
+                             negativeImpactAmount := nia, netAmount := amount })
+
 /-- `execute_deposit` for one token side. Returns the market reached (also on failure). -/
 def executeDeposit (W U : Nat) (m : Market) (d : DepositParams) (isLong : Bool) (poolValue : Nat)
     (impact : Int) (bc : BalanceChange) : Market × Except MErr SideResult :=
@@ -79,56 +137,17 @@ def executeDeposit (W U : Nat) (m : Market) (d : DepositParams) (isLong : Bool) 
       | none => (m, .error .fail)
       | some fee' =>
         let m1 := { m with fee := fee' }
+        -- a positive impact is dropped for the very first deposit
         let impact := if impact > 0 ∧ supply = 0 then 0 else impact
-        -- positive / negative impact stage: (market, minted so far, amount, pos, neg)
-        let stage : Market × Except MErr (Nat × Nat × Nat × Nat) :=
-          if impact > 0 then
-            match applySwapImpactValueWithCap W m1.swapImpact (!isLong) opposite impact with
-            | none => (m1, .error .fail)
-            | some (imp', pia) =>
-              let m2 := { m1 with swapImpact := imp' }
-              match checkedMul W pia opposite.max with
-              | none => (m2, .error .fail)
-              | some usd => match usdToMarketTokenAmount W usd poolValue supply m.cfg.divisor with
-                | none => (m2, .error .fail)
-                | some mt => match toSigned W pia with
-                  | none => (m2, .error .fail)
-                  | some spia => match m2.applyDelta W (!isLong) spia with
-                    | none => (m2, .error .fail)
-                    | some m3 => match validatePoolAmount m3 (!isLong) with
-                      | .error e => (m3, .error e)
-                      | .ok () => (m3, .ok (mt, afterFees, pia, 0))
-          else if impact < 0 then
-            match applySwapImpactValueWithCap W m1.swapImpact isLong price impact with
-            | none => (m1, .error .fail)
-            | some (imp', nia) =>
-              let m2 := { m1 with swapImpact := imp' }
-              match checkedSub afterFees nia with
-              | none => (m2, .error .fail)
-              | some a => (m2, .ok (0, a, 0, nia))
-          else (m1, .ok (0, afterFees, 0, 0))
-        match stage with
-        | (ms, .error e) => (ms, .error e)
-        | (ms, .ok (mt0, amount, pia, nia)) =>
-          match checkedMul W amount price.min with
-          | none => (ms, .error .fail)
-          | some usd => match usdToMarketTokenAmount W usd poolValue supply m.cfg.divisor with
-            | none => (ms, .error .fail)
-            | some mt1 => match checkedAdd W mt0 mt1 with
-              | none => (ms, .error .fail)
-              | some mint => match checkedAdd W amount fees.pool with
-                | none => (ms, .error .fail)
-                | some credit => match toSigned W credit with
-                  | none => (ms, .error .fail)
-                  | some scredit => match ms.applyDelta W isLong scredit with
-                    | none => (ms, .error .fail)
-                    | some m4 => match validatePoolAmount m4 isLong with
-                      | .error e => (m4, .error e)
-                      | .ok () => match validatePoolValueForDeposit W m4 d.prices isLong with
-                        | .error e => (m4, .error e)
-                        | .ok () =>
-                          (m4, .ok { minted := mint, fees := fees, positiveImpactAmount := pia,
-                                     negativeImpactAmount := nia, netAmount := amount })
+        if impact > 0 then
+          match depositPositive W m1 isLong opposite impact poolValue supply with
+          | (ms, .error e) => (ms, .error e)
+          | (ms, .ok (mt0, pia)) => depositFinish W ms d isLong poolValue supply mt0 afterFees fees pia 0
+        else if impact < 0 then
+          match depositNegative W m1 isLong price impact afterFees with
+          | (ms, .error e) => (ms, .error e)
+          | (ms, .ok (amount, nia)) => depositFinish W ms d isLong poolValue supply 0 amount fees 0 nia
+        else depositFinish W m1 d isLong poolValue supply 0 afterFees fees 0 0
 
 /-- ghost summary of a whole deposit. -/
 structure DepositTrace where
